@@ -16,6 +16,8 @@ use crate::newline::SplitLinesByNewline;
 use crate::newline::StringNewline;
 use crate::outcome::Outcome;
 use crate::output::ExitStatus;
+use crate::parsers::line_parser::extract_exit_code;
+use crate::rules::rule::ends_in_modifier;
 use crate::testcase::TestCaseError;
 
 pub(super) trait OutcomeTestGenerator {
@@ -82,6 +84,9 @@ impl OutcomeTestGenerator for Outcome {
                                         ""
                                     } else if !line.ends_with(b"\n") {
                                         " (no-eol)"
+                                    } else if ends_in_modifier(&expectation) || extract_exit_code(&expectation).is_some() {
+                                        // the kind must be named, or the line is taken for something else
+                                        " (equal)"
                                     } else {
                                         ""
                                     };
